@@ -28,6 +28,10 @@ FATE_TABLE = {
         (1, "GC: FileDoesNotExist counts as deleted, an IoError keeps the file managed and it is retried by the next GC (logged)"),
     ("tantivy::directory::managed_directory::ManagedDirectory::wrap", "tantivy::directory::directory::Directory::atomic_read", "err-arm-continues"):
         (1, "FileDoesNotExist(.managed.json) = a fresh directory: start with an empty managed set; every other error is returned"),
+    ("tantivy::indexer::index_writer::advance_deletes", "<tantivy::directory::managed_directory::ManagedDirectory as tantivy::directory::directory::Directory>::delete", "err-arm-continues"):
+        (1, "added by the F36 repair: FileDoesNotExist = there is no leftover delete file to remove (the normal case); an IoError is returned"),
+    ("tantivy::directory::managed_directory::ManagedDirectory::reload_managed_files", "tantivy::directory::directory::Directory::atomic_read", "err-arm-continues"):
+        (1, "same as wrap (added by the F34 repair): FileDoesNotExist(.managed.json) = nothing was registered yet, there is nothing to merge; every other error is returned"),
     ("tantivy::directory::mmap_directory::file_watcher::FileWatcher::spawn::{closure#0}", "tantivy::directory::mmap_directory::file_watcher::FileWatcher::compute_checksum", "err-arm-continues"):
         (1, "watcher thread: meta.json momentarily unreadable, retried at the next poll; no caller to report to"),
     ("tantivy::directory::watch_event_router::WatchCallbackList::broadcast", "std::thread::builder::Builder::spawn", "err-arm-continues"):
@@ -114,6 +118,7 @@ def run(rep, prog, tier):
     r7(rep, prog)
     r8(rep, prog)
     publish_only_alive(rep, prog, "C11-R8")
+    r9(rep, prog)
 
 
 def r1(rep, prog):
@@ -400,6 +405,26 @@ def r8(rep, prog):
     rep.check(not bad, R, "an error after the in-memory switch kills the updater", "%d kill site(s) on the error paths" % len(kills),
               "the commit task can fail (save_metas) after SegmentManager::commit has already installed the new commit in memory, and the updater stays alive: the next merge's save_metas writes these "
               "segments into meta.json under the previous commit's opstamp and payload — a commit that returned Err becomes visible", site=site(b, bad[0]) if bad else b.span)
+
+
+def r9(rep, prog):
+    """a file named after an opstamp may be the leftover of an attempt that was never published"""
+    R = "C11-R9"
+    rep.rule(R, "opstamp-named files can collide with leftovers: advance_deletes writes `<segment>.<target opstamp>.del` with a create-new open_write BEFORE meta.json is replaced; when the commit then fails (I/O error, crash) the file stays, and the stamper of the next writer (rollback, re-open) restarts at the last PUBLISHED opstamp — the same name is produced again and open_write fails with FileAlreadyExists although the storage is healthy ('after dropping or rolling back the failed writer a new writer can continue indexing normally'). Rule: in advance_deletes, Segment::open_write(SegmentComponent::Delete) is preceded on every path by a Directory::delete (of the path about to be written), i.e. a leftover is removed first")
+    fid = I + "index_writer::advance_deletes"
+    b = get_body(rep, prog, R, fid)
+    if b is None:
+        return
+    OW = prog.names(r"^tantivy::index::segment::Segment::open_write$")
+    DEL = prog.names(r"Directory::delete$|ManagedDirectory::delete$")
+    ows = calls_to(prog, b, OW)
+    if not rep.check(len(ows) >= 1, R, "advance_deletes writes the delete file with Segment::open_write", "%d site(s)" % len(ows), "cannot establish: advance_deletes no longer calls Segment::open_write", site=b.span):
+        return
+    dels = [Ev(bi, "term") for bi, t in b.calls() if (t.get("res") or t.get("f") or "") in DEL or (t.get("f") or "") in DEL]
+    bad = must_precede(b, dels, [Ev(bi, "term") for bi, _ in ows]) if dels else [1]
+    rep.check(not bad, R, "a leftover delete file is removed before the new one is created", "%d Directory::delete site(s) dominate the open_write" % len(dels),
+              "advance_deletes creates `<segment>.<opstamp>.del` with a create-new open_write and never removes a file of that name first: after a commit that failed once the delete file was written (or a crash at that point), "
+              "the next writer restarts its stamper at the last published opstamp, reaches the same opstamp again, and commit() fails with OpenWriteError(FileAlreadyExists) on healthy storage", site=site(b, ows[0][0]))
 
 
 def publish_only_alive(rep, prog, R):
